@@ -294,6 +294,18 @@ class SSeq:
     def _wrap_imm(self, items):
         return make(self.kind, items)
 
+    def rjust(self, width, fill=None):
+        if fill is None:
+            fill = b' ' if self.kind != STR else ' '
+        pad = max(0, width - len(self.items))
+        return self._wrap_imm(elems_of(fill) * pad + self.items)
+
+    def ljust(self, width, fill=None):
+        if fill is None:
+            fill = b' ' if self.kind != STR else ' '
+        pad = max(0, width - len(self.items))
+        return self._wrap_imm(self.items + elems_of(fill) * pad)
+
     def partition(self, sep):
         se = elems_of(sep)
         k = self.find(sep)
